@@ -776,8 +776,8 @@ theorem expand_fn_flat (q : Quirks) (ms : List Macro) (hf : flatBodies ms = true
       if plainUse ps m.body (min x.1.2 (ps.length - 1)) then expand q ms [] x.1.1 else (.ok x.1.1 : Except XErr (List XTok))) = .ok args := by
     rw [mapM_ok_eq _ (fun x => x.1.1)]
     · congr 1
-      rw [List.attach_map_val' (f := fun (x : List XTok × Nat) => x.1)]  -- map over attach = map over the list
-      simp
+      have e1 : args.zipIdx.attach.map (fun x => x.1.1) = args.zipIdx.map (fun x => x.1) := List.attach_map_val
+      rw [e1, List.zipIdx_map_fst 0 args]
     · intro x _
       have hx : x.1.1 ∈ args := List.fst_mem_of_mem_zipIdx (x := x.1) x.2
       split
@@ -811,6 +811,12 @@ theorem expand_fn_flat (q : Quirks) (ms : List Macro) (hf : flatBodies ms = true
           rw [hpa] at hpa'; injection hpa' with h; injection h with h1 h2; exact ⟨h1.symm, h2.symm⟩
         obtain ⟨rfl, rfl⟩ := e
         simp only [hbind]
-        sorry
+        rw [hmap]
+        simp only [hbind, hsub, hexp]
+        split
+        · rename_i l n _ hlast
+          have hfn : isFnName ms l = false := by simp [isFnName, hnm l (List.mem_of_getLast? hlast)]
+          simp [hfn]
+        · simp
 
 end Cppcheck.PPMacro
